@@ -87,6 +87,9 @@ type WatchPlan struct {
 	Drop       []int    `json:"drop,omitempty"`
 	CloseAfter int      `json:"close_after,omitempty"`
 	Only       int      `json:"only"` // which Watch call of the instance the drop/close plan applies to (-1 all)
+	// Pipe: Delay is a transit time counted from the moment the entry was produced (entries overlap in transit);
+	// otherwise each entry is delayed after the previous one has been delivered (a slow consumer)
+	Pipe bool `json:"pipe,omitempty"`
 }
 
 type Action struct {
@@ -328,6 +331,7 @@ func Run(t *testing.T, sc *Scenario) (out []byte, counts map[string]int) {
 	synctest.Test(t, func(t *testing.T) {
 		tr := newTrace()
 		w := &World{sc: sc, tr: tr, store: refstore.New()}
+		w.store.Now = tr.now
 		defer func() {
 			out = append([]byte(nil), tr.buf.Bytes()...)
 			counts = tr.kinds
